@@ -45,7 +45,7 @@ prop("C22",
      residual="printing of A1/R1C1 addresses (format!) and sheet-name quoting read back by the lexer are string code outside Verus' reach")
 
 prop("C11",
-     units=["colcodec", "fmtpanic", "lexpanic", "refparse", "fmtlex", "cursor"],
+     units=["colcodec", "fmtpanic", "lexpanic", "refparse", "fmtlex", "cursor", "f4"],
      level="proof",
      claim="no panic (overflow, index, unwrap, division) in the listed text-consuming functions for ANY input string",
      assumptions=["std string functions do not panic on valid &str (their vstd/assumed specs)"],
@@ -150,9 +150,13 @@ prop("C28",
 prop("C34",
      units=["f4"],
      level="proof",
-     claim="next_state follows exactly A1 -> $A$1 -> A$1 -> $A1 -> A1 and has period four (four_cycles composes the real function four times)",
-     assumptions=[],
-     residual="cycle_endpoint / cycle_token_text / cycle_reference (slice + iterator-adapter string code) are not under contract")
+     claim="next_state follows exactly A1 -> $A$1 -> A$1 -> $A1 -> A1 and has period four (four_cycles composes the real function four times); "
+           "cycle_endpoint and cycle_token_text (whole functions, any character slice): the output equals the input once '$' markers are removed and letters "
+           "upper-cased (norm(out) == norm(in)) — whitespace, quoted or unquoted sheet prefix and every endpoint included — and no index is out of range; "
+           "the absolute/relative decision for row-only / column-only / complete endpoints",
+     assumptions=["char::is_ascii_alphabetic / is_ascii_digit as documented; slice::to_vec copies; the two iterator-adapter expressions (upper-casing extend, position of '!') "
+                  "are read as shims with their documented meaning; a [char] slice holds fewer than usize::MAX - 8 elements"],
+     residual="cycle_reference (token spans come from the formula lexer), period four of the whole text (needs re-parsing the output), 'refers to the same cells' beyond the norm equality")
 
 
 prop("C23",
